@@ -16,10 +16,24 @@ def is_zero_obligation(ob):
     return any(s in ob.name for s in ('carries(', 'zeroed(', 'finite(', 'C10:'))
 
 
+def is_c03(ob):
+    return 'C03:' in ob.name
+
+
 def split(zeros):
     out = []
     for r in all_reports():
         r2 = copy.copy(r)
-        r2.obligations = [o for o in r.obligations if is_zero_obligation(o) == zeros]
+        r2.obligations = [o for o in r.obligations if is_zero_obligation(o) == zeros and not is_c03(o)]
         out.append(r2)
+    return out
+
+
+def c03():
+    out = []
+    for r in all_reports():
+        r2 = copy.copy(r)
+        r2.obligations = [o for o in r.obligations if is_c03(o)]
+        if r2.obligations:
+            out.append(r2)
     return out
